@@ -56,6 +56,11 @@ Theorem C05_flac_write_is_spec : forall p, valid_flac p -> flac_streaminfo_write
 Proof. exact flac_write_is_spec. Qed.
 Print Assumptions C05_flac_write_is_spec.
 
+(* a block shorter than 34 bytes is rejected (strict reads) *)
+Theorem C05_flac_short_rejected : forall d, zlen d < 34 -> decode_flac_streaminfo d = Raise EMutagen.
+Proof. intros d H. unfold decode_flac_streaminfo. rewrite if_true by lia. reflexivity. Qed.
+Print Assumptions C05_flac_short_rejected.
+
 Theorem C05_flac_rate0_rejected : forall a b c d ch bps t m,
   0 <= a < 65536 -> 0 <= b < 65536 -> 0 <= c < 16777216 -> 0 <= d < 16777216 ->
   1 <= ch <= 8 -> 1 <= bps <= 32 -> 0 <= t < 68719476736 -> 0 <= m < 340282366920938463463374607431768211456 ->
@@ -324,28 +329,31 @@ Example C05_ex_xing :
 Proof. vm_compute. reflexivity. Qed.
 
 (* ================================================================== stage 2: AC-3 / E-AC-3 (finite domains, vm_compute) *)
-Require Import Model.InfoAc3 Proofs.C05_ac3.
+Require Import Model.InfoAc3 Proofs.C05_ac3 Proofs.C05_ac3b.
 
 Theorem C05_ac3_tables_match_spec : ac3_table_diffs = [[]; []; []; []; []].
 Proof. exact ac3_tables_match_spec. Qed.
 Print Assumptions C05_ac3_tables_match_spec.
 
-(* A/52 syncframe, every fscod x frmsizecod (0..37) x bsid (0..10) x lfeon, channel modes 2/0, 3/0, 2/1, 2/2:
-   [codec; sample_rate; bitrate; channels] as encoded *)
-Theorem C05_ac3_header_partial : forall fscod frmsizecod bsid acmod lfe mix,
-  0 <= fscod <= 2 -> 0 <= frmsizecod <= 37 -> 0 <= bsid <= 10 -> In acmod [2; 3; 4; 6] -> 0 <= lfe <= 1 -> In mix [0; 5; 10] ->
+(* A/52 syncframe, every fscod x frmsizecod (0..37) x bsid (0..10) x lfeon x all eight channel modes
+   (cmixlev / surmixlev / dsurmod values 0, 1, 2 through mix): [codec; sample_rate; bitrate; channels] as encoded *)
+Theorem C05_ac3_header : forall fscod frmsizecod bsid acmod lfe mix,
+  0 <= fscod <= 2 -> 0 <= frmsizecod <= 37 -> 0 <= bsid <= 10 -> 0 <= acmod <= 7 -> 0 <= lfe <= 1 -> In mix [0; 5; 10] ->
   let p := mkAc3 fscod frmsizecod bsid 0 acmod (mix mod 4) ((mix / 4) mod 4) (mix mod 4) lfe 27 in
   exists l, decode_ac3 (build_ac3_frame p) = Ok l /\ firstn 4 l = expected_ac3 p.
-Proof. exact ac3_header_good_modes. Qed.
-Print Assumptions C05_ac3_header_partial.
+Proof.
+  intros fscod frmsizecod bsid acmod lfe mix H1 H2 H3 H4 H5 H6.
+  assert (In acmod [2; 3; 4; 6] \/ In acmod [0; 1; 5; 7]) as [G | G] by (cbn [In]; lia).
+  - apply ac3_header_good_modes; assumption.
+  - apply ac3_header_other_modes; assumption.
+Qed.
+Print Assumptions C05_ac3_header.
 
-(* what is missing for the other channel modes (1+1, 1/0, 3/1, 3/2): the code reads lfeon two bits after acmod
-   whatever the mode; A/52 has 0 or 4 bits there.  Witness: a 5.1 stream reported with 5 channels. *)
-Theorem C05_ac3_lfe_position_refuted :
-  exists p l, a3_acmod p = 7 /\ a3_lfeon p = 1 /\ decode_ac3 (build_ac3_frame p) = Ok l /\
-              nth 3 l 0 = 5 /\ nth 3 (expected_ac3 p) 0 = 6.
-Proof. exact ac3_lfe_position_refuted. Qed.
-Print Assumptions C05_ac3_lfe_position_refuted.
+(* the header of the defect fixed in /repo (5.1 stream reported with 5 channels) *)
+Example C05_ac3_51_regression :
+  decode_ac3 (build_ac3_frame (mkAc3 0 20 8 0 7 1 1 0 1 27)) = Ok [0; 48000; 192000; 6; 440; 192000] /\
+  build_ac3_header (mkAc3 0 20 8 0 7 1 1 0 1 27) = [11; 119; 0; 0; 20; 64; 235; 216; 64].
+Proof. exact ac3_51_regression. Qed.
 
 Theorem C05_eac3_header : forall strmtyp frmsiz fscod code2 acmod lfe,
   0 <= strmtyp <= 2 -> In frmsiz [3; 4; 100; 767; 1024; 2047] -> 0 <= fscod <= 3 -> 0 <= code2 <= 3 ->
